@@ -12,6 +12,9 @@ CHECKS = {
  "C06": dict(cat="model_checking", tech="TLA+ schedule state machine (TLC over all histories) + per-draw trace validation of the adapt() hook joined with Progress/stats",
    text="TLC checks on AdaptSchedule, for all good/rejected histories and a family of scaled schedule constants, that tuning is reported exactly for draws < num_tune and that nothing changes the transformation from the final window on; every draw of real chains (six presets, num_tune 0..400, window fractions, frequencies, growth, jitter None/0/0.1, dual averaging/Adam/fixed) is one trace line that the trace spec must explain, including Progress.tuning, stats.tuning, transformation id, and the harness-side predicates 'averaged step size constant after warm-up' and 'step inside jitter band'.",
    note="schedule constants read from the implementation; band/constancy predicates computed harness-side from bit patterns; flow presets use the harness's affine flow", ref="5/C06"),
+ "C07": dict(cat="model_checking", tech="TLA+ search automaton (TLC over all probe outcomes) + trace validation of the search hook events of real chains; TLA+ exact-rational model of the dual-averaging / Adam error recurrences (TLC over all ordered history pairs) replayed into the real estimators; routing and bounds through the schedule trace spec",
+   text="StepSizeSearch.tla: direction from the first probe, exponent moves by one per probe, stop at the first probe on the far side of the target, installed step = that probe's step, estimator re-created from it, every other exit installs the configured initial step and leaves the estimator alone - Bracket / FallbackIsInitial checked by TLC for all outcomes; every search (initial and re-run) of 240 (quick) / 3000 (thorough) real chains with initial steps 1e-7..1e4, targets 0.05..0.99, injected probe faults is validated event by event against it. StepSizeUpdate.tla: hbar and Adam's smoothed error as exact rationals, Monotone and HbarBounded checked by TLC over all pairs of pointwise ordered acceptance histories on a grid; each pair is run through the real DualAverage and Adam under 5 parameter sets: iterate and weighted average follow the documented formulas from TLC's exact hbar, step positive / finite / <= max_step_size, higher acceptance never a smaller step, Adam moves up exactly when the smoothed error is positive. Routing of the two acceptance statistics and boundedness of every step size on real chains via AdaptScheduleTrace.",
+   note="comparison of acceptance with target, power-of-two exponents and formula agreement (1e-9 in log space) are harness-side predicates; monotonicity decided on a grid of acceptance values for 4 updates, not for all reals", ref="5/C07"),
  "C09": dict(cat="model_checking", tech="TLA+ schedule state machine with estimator window bookkeeping; trace spec predicts counts/windows/switches/updates/re-search/routing from constants and good/rejected history",
    text="AdaptSchedule models both estimators as (count, first admissible draw) with the switch history; TLC checks staleness (foreground only holds draws since the switch before last), switch rule (full window and room for another before the final window), window growth, single re-search and statistic routing over all histories; real chains' hook logs must match the predicted counts, window sizes, switch/update draws and routing on every draw.",
    note="good/rejected for NUTS recomputed from draw index and divergence; for MCLMC inferred by TLC from logged counts", ref="5/C09"),
